@@ -1,6 +1,8 @@
 #!/bin/bash
 # Runner for the schedule-exploration engine (C28, C29, C32):
-#   regenerate harness/qshuttle/src-gen from /repo's working tree, build, run.
+#   1. (C28, C32) OS-thread stress on the normal build (vcheck <ID>S), whose
+#      numbers the qshuttle runner folds into the evidence;
+#   2. regenerate harness/qshuttle/src-gen from /repo's working tree, build, run qsh.
 # usage: run_qsh.sh <ID> <quick|thorough> [--replay FILE]
 set -u
 VERIF=/verif
@@ -9,12 +11,18 @@ export CARGO_NET_OFFLINE=true
 export CARGO_TERM_COLOR=never
 ID=$1
 shift
+TIER=${1:-quick}
+
+# a replay file produced by the stress run goes back to vcheck
+if [ "${2:-}" = "--replay" ] && grep -q '"check": ".*os-thread' "${3:-/dev/null}" 2>/dev/null; then
+    exec "$VERIF/.target/debug/vcheck" "${ID}S" "$TIER" --replay "$3"
+fi
+
 "$Q/gen.sh" || exit 2
 mkdir -p "$VERIF/.target-qsh"
 log=$VERIF/.target-qsh/build.log
 (
     flock 9
-    [ -f "$Q/Cargo.lock" ] || cp "$VERIF/harness/Cargo.lock" "$Q/Cargo.lock"
     cd "$Q" && cargo build --offline --target-dir "$VERIF/.target-qsh" >"$log" 2>&1
 ) 9>"$VERIF/.target-qsh/.build.lock"
 if [ $? -ne 0 ]; then
@@ -22,8 +30,18 @@ if [ $? -ne 0 ]; then
     grep -E "^(error|warning: unused)" -A8 "$log" | head -60 >&2
     exit 2
 fi
+
+src=0
+if [ "${2:-}" != "--replay" ] && { [ "$ID" = C28 ] || [ "$ID" = C32 ]; }; then
+    rm -f "$VERIF/.work/stress-$ID.json"
+    VERIF_EVIDENCE_DIR=$VERIF/.work/stress-evidence "$VERIF/.target/debug/vcheck" "${ID}S" "$TIER"
+    src=$?
+    [ $src -eq 2 ] && exit 2
+fi
+
 # shuttle prints several lines per failing execution while a failure is shrunk; keep stderr readable
 "$VERIF/.target-qsh/debug/qsh" "$ID" "$@" 2> >(grep --line-buffered -v -E '^(failing seed:|"|[0-9]+$|To replay the failure|    [12]\) |Task failed, serializing|test panicked in task)' >&2)
 rc=$?
 sleep 0.1
+[ $rc -eq 0 ] && rc=$src
 exit $rc
